@@ -342,6 +342,8 @@ class NumpyModel:
             tname = getattr(tgt, "path", None) or (tgt if isinstance(tgt, str) else getattr(tgt, "__name__", ""))
             if str(tname).split(".")[-1] in ("float32", "float16", "half", "single", "f4", "f2"):
                 return self.np_float32(a.copy())
+            if kwargs.get("copy", True) is False and str(tname).split(".")[-1] in ("float", "float64", "double", "float_", "d", "f8"):
+                return a          # already float64 (the generic case): numpy hands back the very same array
             return a.copy()
         if name == "clip":
             return self.np_clip(a, *args, **kwargs)
@@ -1669,6 +1671,10 @@ def _select(c, a, b):
         if a == b:
             return a
         return alg.Fn("select", c.astuple(), a, b)
+    from .values import inf_select
+    r = inf_select(c, a, b)
+    if r is not None:
+        return r
     return Opaque("select of non-E")
 
 
